@@ -40,6 +40,7 @@ type Options struct {
 	ForceName     bool // always name the operation
 	Defer         bool // add @defer to fragments
 	NoDeferLabels bool // never give @defer a label
+	NoOmittedVars bool // every declared variable is present in the variables object
 	UniqueKeys    bool // every response key at most once per response-object level
 	NoVariables   bool
 	Simple        bool // no duplicate/overlapping selections, fragments only on the enclosing object type
@@ -529,7 +530,7 @@ func (g *gen) variable(t *ast.Type, nested bool, label string) string {
 		v.def, _ = g.value(&vt, 0, label+"vd", false, "default")
 		_ = lit
 		g.feat["variable-default"] = true
-		if rapid.Bool().Draw(g.t, label+"vomit") && (!nested || g.allow("default-omitted-nested")) {
+		if rapid.Bool().Draw(g.t, label+"vomit") && (!nested || g.allow("default-omitted-nested")) && !g.o.NoOmittedVars {
 			v.present = false
 			g.feat["variable-omitted-with-default"] = true
 			if nested {
@@ -538,7 +539,7 @@ func (g *gen) variable(t *ast.Type, nested bool, label string) string {
 		} else {
 			_, v.value = g.value(&vt, 0, label+"vv2", false, "var")
 		}
-	case !vt.NonNull && rapid.IntRange(0, 5).Draw(g.t, label+"vabs") == 0:
+	case !vt.NonNull && rapid.IntRange(0, 5).Draw(g.t, label+"vabs") == 0 && !g.o.NoOmittedVars:
 		v.present = false
 		g.feat["variable-omitted"] = true
 	}
